@@ -460,7 +460,7 @@ def gen_gfa2(rng, k):
         U.append("\t".join(["U", uid, " ".join(items)] + gen_tags(rng, k)))
     X = []
     for _ in range(rng.randint(0, k.get("max_custom", 1))):
-        rt = rng.choice(["X", "Y", "Zz"])
+        rt = rng.choice(["X", "Y", "Zz", "LEN", "SEQ", "CTG", "PRG", "EE", "Ox", "HDR", "Gap", "Us", "FF"])
         flds = [rng.choice(["foo", "12", "a b", "x:y", "-"]) for _ in range(rng.randint(0, 3))]
         X.append("\t".join([rt] + flds + gen_tags(rng, k)))
     H = []
